@@ -406,7 +406,52 @@ def template_table_rule(cx, rep, rid):
     rep.floor(rid, "inclusion tests of two template-literal types", n, 1)
 
 
+# ---------------------------------------------------------------------------------------------------- C15.20
+def flat_variants_verbatim_rule(cx, rep, rid):
+    """The runtime class of a discriminated union gets the variants twice: as the flat list (`schemas`: what describe()
+    prints and both hashes cover) and as the dispatch tables (`mapping`: what validate / parse use).  describe() ->
+    compile again is the identity on hash256 only while the flat list holds the variants AS THEY ARE: a list rebuilt
+    from them (an inline variant with the tag `"square" | "rect"` listed once per literal) describes a type whose
+    recompilation has other tables than the original (seed C15-r).  Decided: in the printer function that emits the
+    discriminated-union class, every local `Vec<Runtype>` initialised from the set of variants it was handed is
+    produced by copying adaptors only (iter / cloned / copied / into_iter / collect / to_vec) - no `map`, `flat_map`,
+    `filter` on the way."""
+    F = cx.rs
+    n = 0
+    COPY = {"iter", "cloned", "copied", "into_iter", "collect", "to_vec", "clone"}
+    for g, f, t in _fn_trees(F, "packages/beff-core/src/print"):
+        if f.kind == "Closure" or not any(x["k"] == "Lit" and x.get("v") == "AnyOfDiscriminatedRuntype" for x in walk(t["body"])):
+            continue
+        set_params = []
+        for p_ in t.get("params", []):
+            if "BTreeSet<ast::runtype::Runtype>" in (p_.get("ty") or ""):
+                set_params += [b.get("lid") for b in walk(p_) if b["k"] == "P.Binding"]
+        for x in walk(t["body"]):
+            if x["k"] != "LetStmt" or x.get("init") is None:
+                continue
+            init = x["init"]
+            if not any(y["k"] == "Path" and y.get("lid") in set_params for y in walk(init)):
+                continue
+            ty = next((b.get("ty") for b in walk(x["pat"]) if b["k"] == "P.Binding"), "") or ""
+            chain = [y["method"] for y in walk(init) if y["k"] == "MethodCall"]
+            if "Vec<" not in ty and "collect" not in chain:
+                continue
+            n += 1
+            other = [m_ for m_ in chain if m_ not in COPY]
+            rep.ob(rid, "%s/flat-list-verbatim" % f.name, not other,
+                   "%s builds the flat variant list of the discriminated-union class from the variants it was handed through %s: the list is what describe() prints and the hashes cover, the dispatch tables are built from the variants themselves - a rebuilt list describes a type whose recompilation has different tables, so hash256 does not survive describe() -> compile" % (g, ", ".join(other)),
+                   "%s:%s" % (f.file, x["line"]), sample={"fn": g, "adaptors": chain})
+    rep.floor(rid, "flat variant lists copied out of the variant set", n, 1)
+
+
+def _lift_c04_12(cx, rep, rid):
+    from rules.r15 import lift_rule
+    lift_rule(cx, rep, rid, "C04", ["C04.12"], "so a case of the dispatch table no longer declares the discriminator (narrowed to the entry's key): under disallowExtraProperties the closed case object rejects the discriminator itself as an extra key - every value of a shared-literal variant is rejected in strict mode")
+
+
 REGISTRY = {
+    "C11": [("C11.11", "the cases of a discriminated union's dispatch table declare the discriminator, narrowed to the case's key (C04.12 lifted): a case that drops the key rejects it as extra in strict mode", _lift_c04_12)],
+    "C15": [("C15.20", "the flat variant list of a discriminated union holds the variants as they are (copying adaptors only)", flat_variants_verbatim_rule)],
     "C06": [("C06.10", "the inclusion test of template literals refuses what it cannot decide (string-table entries stay nested or disjoint)", template_table_rule)],
     "C13": [("C13.16", "hash256 is structure-directed: no instanceof on a child, no look-through of references outside the reference classes (= C08.20)", digest_structure_directed_rule),
             ("C13.15", "the digest context carries path bookkeeping only: every table added to is also removed from in the same method", digest_context_pairing_rule)],
